@@ -1637,7 +1637,9 @@ func (kmc *KeystoreManagerForPoC) ChangeRemark(accountID, newRemark string) erro
 			return err
 		}
 		// update memory only after the transaction has been committed
+		addrManager.mu.Lock()
 		addrManager.remark = newRemark
+		addrManager.mu.Unlock()
 		return nil
 	} else {
 		logging.CPrint(logging.ERROR, "account not exists",
